@@ -1,6 +1,6 @@
 (* Correspondence cases for C03 (native EDS codec at token level). *)
 From Coq Require Import List NArith ZArith Bool.
-From PyD Require Export Base.Str Model.Hier Model.Mrs Model.Iso Model.SimpleMrs Model.EdsNative Corr.Common.
+From PyD Require Export Base.Str Model.Hier Model.Mrs Model.Iso Model.SimpleMrs Model.MrsJson Model.EdsNative Model.EdsJson Corr.Common.
 From PyD Require Import Corr.C01.
 Import ListNotations.
 
@@ -24,10 +24,13 @@ Definition veds_eqb (a b : veds) : bool :=
 
 Inductive case :=
 | EEnc (propopt lnkopt status : bool) (g : veds) (toks : option (list etok))
-| EDec (toks : list etok) (res : option (list veds)).
+| EDec (toks : list etok) (res : option (list veds))
+| EJson (propopt lnkopt : bool) (g : veds) (d : jv) (back : veds).
 
 Definition check_case (c : case) : bool :=
   match c with
   | EEnc p l st g toks => option_eqb (list_eqb etok_eqb) (enc_veds p l st g) toks
   | EDec toks res => option_eqb (list_eqb veds_eqb) (dec_eds_all (S (length toks)) toks) res
+  | EJson p l g d back =>
+      C01.jv_eqb (e_to_dict p l g) d && option_eqb veds_eqb (e_from_dict d) (Some back)
   end.
